@@ -151,6 +151,7 @@ class Gen:
                 it = self.src(rel).find_item("enum", name)
                 body = re.sub(r"(?m)^\s*///.*$", "", it["body"])
                 body = re.sub(r"(?m)^\s*//.*$", "", body)
+                body = re.sub(r"(?m)^\s*#\[[^\]]*\]\s*$", "", body)      # attributes on variants (e.g. #[default]) are dropped with the derive list
                 body = "\n".join(l for l in body.split("\n") if l.strip())
                 if der:
                     self.emit("#[derive(%s)]" % der, kind="template")
@@ -273,8 +274,8 @@ class Gen:
                     i += 1
                 i += 1
                 directives.append(("loop", nth, blk, i))
-            elif s.startswith("//@proof "):
-                m = re.match(r"//@proof\s+(after|before|start|end)(?:#(\d+))?(?:\s+`(.*)`)?\s*$", s)
+            elif s.startswith("//@proof ") or s.startswith("//@proof? "):
+                m = re.match(r"//@proof(\??)\s+(after|before|start|end)(?:#(\d+))?(?:\s+`(.*)`)?\s*$", s)
                 if not m:
                     raise TemplateError("%s:%d: bad proof directive" % (tname, i + 1))
                 blk = []
@@ -283,8 +284,8 @@ class Gen:
                     blk.append(lines[i])
                     i += 1
                 i += 1
-                anchor = m.group(3).replace("\\n", "\n").replace("\\t", "\t") if m.group(3) else None
-                directives.append(("proof", m.group(1), anchor, blk, i, int(m.group(2)) if m.group(2) else None))
+                anchor = m.group(4).replace("\\n", "\n").replace("\\t", "\t") if m.group(4) else None
+                directives.append(("proof", m.group(2), anchor, blk, i, int(m.group(3)) if m.group(3) else None, bool(m.group(1))))
             elif s == "" or s.startswith("// "):
                 i += 1
             else:
@@ -489,8 +490,10 @@ class Gen:
         return body
 
     def _splice_proof(self, body, dct, rel, qual):
-        _, where, anchor, blk, tl, nth = dct
+        _, where, anchor, blk, tl, nth, optional = dct
         text = "\n".join(blk)
+        if optional and anchor is not None and body.count(anchor) == 0:
+            return body        # `//@proof?`: a hint that only exists for one shape of the code; without its anchor it is skipped
         for b in blk:
             pass
         if where == "start":
